@@ -22,7 +22,10 @@ Definition sep (w : world) : Prop :=
 Definition is_fresh (s : sinit (T:=T)) : Prop := match s with IFresh _ => True | IShare _ _ => False end.
 (* hypothesis on the producers that do not go through prepare(): they store new vectors only *)
 Definition op_fresh (w : world) (o : op) : Prop :=
-  match o with ONew false pat _ _ _ _ _ => Forall is_fresh pat | _ => True end.
+  match o with
+  | ONew how pat _ _ _ _ _ _ => match build_mode how with Alias => Forall is_fresh pat | Copy => True end
+  | _ => True
+  end.
 
 Lemma build_ext_fresh objs pat : forall (m m' : mem (T:=T)) cs,
   Forall is_fresh pat -> build_ext objs m pat = Some (m', cs) -> fresh_block m m' cs /\ frame O m m'.
@@ -41,7 +44,7 @@ Qed.
 
 Lemma op_fresh_ok (w : world) o : op_fresh w o -> op_ok w o.
 Proof.
-  destruct o; simpl; auto. destruct prep; auto. intros Hp m' cs E.
+  destruct o; simpl; auto. destruct (build_mode how); auto. intros Hp m' cs E.
   apply build_ext_fresh in E as [[Hnd _] _]; auto.
 Qed.
 
@@ -53,17 +56,17 @@ Proof.
   intros Hwf Hfr Hs Ht. destruct o; cbn [target] in Ht; try discriminate.
   - (* ONew *)
     cbn [step] in Hs. destruct (build_ext (wobjs w) (wmem w) pat) as [[m1 cs]|] eqn:E; [|discriminate].
-    destruct prep.
+    destruct (take O (build_mode how) m1 cs) as [m2 cs2] eqn:Et. inversion Hs; subst. cbn [op_fresh] in Hfr.
+    destruct (build_mode how).
+    + cbn [take] in Et. inversion Et; subst. apply build_ext_fresh in E as [Hfb _]; auto.
+      eexists; split; [reflexivity|]. simpl. intros x Hx. eapply fresh_block_not_allocated; eauto.
     + apply build_ext_spec with (O := O) in E as [Hf _]; [|apply wf_objs_allocated; auto].
-      rewrite prepare_copies in Hs. destruct (take O Copy m1 cs) as [m2 cs2] eqn:Et. inversion Hs; subst.
       apply take_copy_fresh in Et as (Hfb & _ & _). eexists; split; [reflexivity|]. simpl.
       intros x Hx Hal. apply (fresh_block_not_allocated _ _ _ _ Hfb Hx). eapply allocated_mono; eauto.
-    + inversion Hs; subst. apply build_ext_fresh in E as [Hfb _]; auto.
-      eexists; split; [reflexivity|]. simpl. intros x Hx. eapply fresh_block_not_allocated; eauto.
   - destruct (from_arrays_spec O _ _ _ _ _ _ _ _ Hwf Hs) as (ao & mo & _ & E & _ & _ & Hf & _). eauto.
   - destruct (ring_spec O _ _ _ _ _ _ _ _ _ Hs) as (ro & E & _ & _ & Hf & _). eauto.
-  - destruct (copy_spec O _ _ _ _ Hwf Hs) as (so & co & _ & E & _ & _ & _ & _ & _ & _ & _ & Hf & _). eauto.
-  - destruct (merge_spec O _ _ _ Hwf Hs) as (ins & mo & _ & E & _ & _ & _ & _ & _ & _ & _ & Hf & _). eauto.
+  - destruct (copy_spec O _ _ _ _ Hwf Hs) as (so & co & _ & E & _ & _ & _ & _ & _ & _ & _ & _ & Hf & _). eauto.
+  - destruct (merge_spec O _ _ _ Hwf Hs) as (ins & mo & _ & E & _ & _ & _ & _ & _ & _ & _ & _ & Hf & _). eauto.
 Qed.
 
 Lemma obj_cells_allocated (w : world) k c : wf w -> In c (obj_cells w k) -> allocated (wmem w) c.
@@ -83,8 +86,8 @@ Proof.
   destruct (target o) as [t|] eqn:Ht.
   - (* one object's cells rewritten; same number of objects *)
     assert (Hlen : length (wobjs w') = n).
-    { destruct (step_shape_holds O _ _ _ Hwf Hok Hs) as [(Ht' & _)|(i & so & m' & cs' & _ & _ & -> & _)]; [congruence|].
-      unfold retarget. simpl. rewrite Hn. apply upd_length. }
+    { destruct (step_shape_holds O _ _ _ Hwf Hok Hs) as [(Ht' & _)|(i & so & so' & m' & cs' & _ & _ & -> & _)]; [congruence|].
+      simpl. rewrite Hn. apply upd_length. }
     assert (Hold : forall k c, In c (obj_cells w' k) -> (k < n)%nat /\ (In c (obj_cells w k) \/ ~ allocated (wmem w) c)).
     { intros k c Hc. destruct (Nat.lt_ge_cases k n) as [Hk|Hk]; [split; [exact Hk | exact (Hsub k Hk c Hc)]|].
       rewrite obj_cells_beyond in Hc by lia. destruct Hc. }
